@@ -5,6 +5,8 @@ import (
 	"compress/gzip"
 	"context"
 	"fmt"
+	"golang.org/x/net/http2"
+	"golang.org/x/net/http2/h2c"
 	"io"
 	"net"
 	"net/http"
@@ -26,6 +28,7 @@ type Fetch struct {
 	URI      string
 	Header   http.Header
 	Body     []byte
+	Proto    string // as the origin saw it: HTTP/1.1 or HTTP/2.0
 	Key      string
 	Nth      int
 	ReqID    string
@@ -159,7 +162,8 @@ func (o *Origin) Up() error {
 	o.ln = ln
 	o.Port = ln.Addr().(*net.TCPAddr).Port
 	o.Addr = "127.0.0.1:" + strconv.Itoa(o.Port)
-	o.srv = &http.Server{Handler: http.HandlerFunc(o.handle), ConnState: func(c net.Conn, st http.ConnState) {
+	// HTTP/1.1 as before; a client that opens with the HTTP/2 preface (pike's enableH2C upstreams) is served h2c
+	o.srv = &http.Server{Handler: h2c.NewHandler(http.HandlerFunc(o.handle), &http2.Server{}), ConnState: func(c net.Conn, st http.ConnState) {
 		if st == http.StateNew {
 			o.Conns.Add(1)
 		}
@@ -236,6 +240,7 @@ func (o *Origin) handle(w http.ResponseWriter, r *http.Request) {
 		Header: r.Header.Clone(),
 		Body:   body,
 		ReqID:  r.Header.Get("X-Req-Id"),
+		Proto:  r.Proto,
 	}
 	f.Key = f.Method + " " + f.Host + " " + f.URI
 	fm.mu.Lock()
